@@ -16,6 +16,9 @@
       fam   a whole cross product: every pair of distinct configs has distinct hashes
       proc  the same configs built in 3 fresh interpreter processes (PYTHONHASHSEED 0, 1, random):
             same hash and file name as in this process
+      coll / cline  MazeDatasetCollectionConfig over member configs: members survive the JSON round trip,
+            identity repeatable / stable / separating collections that differ in a member field, member
+            order, member count or name (+ the 3 other processes); its file name only as Layer M
 
 Interpretation decisions
   * to_fname prints hash mod 10^5 as a number (no zero padding) -- DESIGN.md section 4.
@@ -32,6 +35,8 @@ Interpretation decisions
     "coordinate lists are restored as tuples"; tuples elsewhere (a tuple-valued start_coord, a tuple
     nested inside filter args) come back as lists through JSON.  Those inputs are observed and
     recorded in the evidence (notes.outside_scope_observations) but not judged.
+  * the statement's file-name sentence (grid size, generator) cannot apply to a collection of configs:
+    "collected-<name>-n<total count>-h<hash mod 10^5>" is judged as model conformance (Layer M) only.
   * dict key order is not varied (Python's == ignores it, the JSON text does not).
   * n_mazes is excluded from the library's == (compare=False); the raw field comparison includes it.
 """
@@ -249,6 +254,77 @@ def obs_fam(ds):
     return dict(kind="fam", cfgs=[desc_tree(d) for d in ds], hashes=[h for _, h in hs], res=_first_bad(hs), bad=[])
 
 
+def build_coll(spec):
+    from maze_dataset.dataset.collected_dataset import MazeDatasetCollectionConfig
+
+    return MazeDatasetCollectionConfig(name=spec["name"], maze_dataset_configs=[build(d) for d in spec["members"]])
+
+
+def coll_tree(spec):
+    return dict(name=spec["name"], members=[desc_tree(d) for d in spec["members"]])
+
+
+def obs_coll(spec):
+    rec = dict(kind="coll", d=coll_tree(spec), name=spec["name"], res="ok", bad=[])
+    stage = "build"
+    try:
+        from maze_dataset.dataset.collected_dataset import MazeDatasetCollectionConfig
+
+        bad = rec["bad"]
+        c = build_coll(spec)
+        stage = "stable_hash_cfg"
+        rec["hash"], rec["hd"], rec["hneg"], rec["hmod"] = _hash_fields(c.stable_hash_cfg(), bad, "hash")
+        stage = "to_fname"
+        rec["fname"] = _str(c.to_fname(), bad, "fname")
+        stage = "twin"
+        rec["h3"] = _hash_fields(build_coll(copy.deepcopy(spec)).stable_hash_cfg(), bad, "hash3")[0]
+        stage = "json.dumps(serialize)"
+        s2 = json.loads(json.dumps(c.serialize()))
+        stage = "load"
+        b = MazeDatasetCollectionConfig.load(s2)
+        rec["om"] = [raw(m, bad, f"o[{k}]") for k, m in enumerate(c.maze_dataset_configs)]
+        rec["bm"] = [raw(m, bad, f"b[{k}]") for k, m in enumerate(b.maze_dataset_configs)]
+        rec["bname"] = _str(b.name, bad, "b.name")
+        stage = "=="
+        rec["lib_eq"] = bool(b == c) and bool(c == b)
+        stage = "hash"
+        rec["hb"] = _hash_fields(b.stable_hash_cfg(), bad, "hash_b")[0]
+    except BaseException as e:  # noqa: BLE001
+        rec["res"] = _exc(e, stage)
+    return rec
+
+
+def obs_cline(specs):
+    hs = []
+    for sp in specs:
+        try:
+            bad = []
+            h = _hash_fields(build_coll(sp).stable_hash_cfg(), bad, "hash")[0]
+            hs.append(("ok" if not bad else "raise:TypeError@hash_is_" + bad[0].split(":")[1], h))
+        except BaseException as e:  # noqa: BLE001
+            hs.append((_exc(e, "stable_hash_cfg"), ""))
+    return dict(kind="cline", colls=[coll_tree(sp) for sp in specs], hashes=[h for _, h in hs], res=_first_bad(hs), bad=[])
+
+
+def coll_families(bs, n):
+    """per family: a 2-member collection and its neighbours (a member changed in one field, order, count, name)"""
+    fams = []
+    for k in range(n):
+        m1, m2 = bs[(2 * k) % len(bs)], bs[(2 * k + 1) % len(bs)]
+        base = dict(name="coll", members=[m1, m2])
+        fam = [base, dict(name="coll", members=[m2, m1]), dict(name="coll", members=[m1]), dict(name="coll", members=[m1, m2, m2]), dict(name="coll2", members=[m1, m2])]
+        for f in FIELDS:
+            opts = [v for v in options(f, m1) if _fk(v) != _fk(m1[f])]
+            if opts:
+                fam.append(dict(name="coll", members=[dict(m1, **{f: opts[k % len(opts)]}), m2]))
+            opts = [v for v in options(f, m2) if _fk(v) != _fk(m2[f])]
+            if opts:
+                fam.append(dict(name="coll", members=[m1, dict(m2, **{f: opts[(k + 1) % len(opts)]})]))
+        if _fk(m1) != _fk(m2):
+            fams.append(fam)
+    return fams
+
+
 def obs_unit(args):
     """one requested config -> its cfg record and (optionally) both round trips"""
     d, with_rt = args
@@ -278,7 +354,7 @@ def child_main():
 
             where = str(maze_dataset.__file__)
             stage = "build"
-            c = build(desc_untree(t))
+            c = build_coll(dict(name=t["name"], members=[desc_untree(m) for m in t["members"]])) if "members" in t else build(desc_untree(t))
             stage = "stable_hash_cfg"
             h = _hash_fields(c.stable_hash_cfg(), bad, "hash")[0]
             stage = "to_fname"
@@ -304,7 +380,7 @@ HASHSEEDS = ["0", "1", "random"]
 
 
 def run_children(ds):
-    payload = json.dumps([desc_tree(d) for d in ds])
+    payload = json.dumps([coll_tree(d) if "members" in d else desc_tree(d) for d in ds])
     with cf.ThreadPoolExecutor(max_workers=len(HASHSEEDS)) as ex:
         return list(ex.map(_run_child, [(hs, payload) for hs in HASHSEEDS]))
 
@@ -316,7 +392,7 @@ def proc_records(ds, mains, children):
         if m["res"] != "ok":
             continue  # already judged as a cfg record
         obs = [dict(env=ch["hashseed"], res=ch["out"][k]["res"], hash=ch["out"][k]["hash"], fname=ch["out"][k]["fname"]) for ch in children]
-        recs.append(dict(kind="proc", d=desc_tree(d), res="ok", bad=[], hash=m["hash"], fname=m["fname"], obs=obs))
+        recs.append(dict(kind="proc", d=coll_tree(d) if "members" in d else desc_tree(d), res="ok", bad=[], hash=m["hash"], fname=m["fname"], obs=obs))
     return recs
 
 
@@ -479,6 +555,13 @@ def _syn_cfg(**over):
     return r
 
 
+def _syn_coll(**over):
+    ms = [_syn(), _syn(name="second")]
+    r = dict(kind="coll", res="ok", bad=[], name="coll", om=ms, bm=[_syn(), _syn(name="second")], bname="coll", lib_eq=True, hash=_H1, hd=list(_H1), hneg=False, hmod=123, fname="collected-coll-n10-h123", h3=_H1, hb=_H1)
+    r.update(over)
+    return r
+
+
 def _canaries():
     d0 = {k: v for k, v in _syn().items() if k not in ("slmin", "slmax")}
     d1 = dict(d0, seed=8)
@@ -523,6 +606,16 @@ def _canaries():
         (dict(kind="fam", res="ok", bad=[], cfgs=[d0, d1, dict(d0, af=tree([]))], hashes=[_H1, _H2, _H1]), "hash_collision"),
         (dict(kind="fam", res="ok", bad=[], cfgs=[d0, d1, dict(d0)], hashes=[_H1, _H2, _H2]), "equal_configs_hash_differently"),
         (dict(kind="fam", res="ok", bad=[], cfgs=[d0, d1, dict(d0)], hashes=[_H1, _H2, _H1]), "__accept__"),
+        (_syn_coll(), "__accept__"),
+        (_syn_coll(bm=[_syn(), _syn(name="second", af=tree([{"name": "path_length", "args": [3], "kwargs": {}}]))]), "member_changed"),
+        (_syn_coll(bm=[_syn()]), "member_changed"),
+        (_syn_coll(bm=[_syn(name="second"), _syn()]), "member_changed"),
+        (_syn_coll(h3=_H2), "hash_not_repeatable"),
+        (_syn_coll(hb=_H2), "hash_changed_by_round_trip"),
+        (_syn_coll(fname="collected-coll-n10-h00123"), "M:collection_fname_format"),
+        (dict(kind="cline", res="ok", bad=[], colls=[dict(name="coll", members=[d0, d1]), dict(name="coll", members=[d1, d0])], hashes=[_H1, _H1]), "hash_collision:collection"),
+        (dict(kind="cline", res="ok", bad=[], colls=[dict(name="coll", members=[d0, d1]), dict(name="coll", members=[d0, dict(d1, grid_n=4)])], hashes=[_H2, _H2]), "hash_collision:collection"),
+        (dict(kind="cline", res="ok", bad=[], colls=[dict(name="coll", members=[d0, d1]), dict(name="coll", members=[d1, d0])], hashes=[_H1, _H2]), "__accept__"),
         (dict(kind="proc", res="ok", bad=[], hash=_H1, fname="a", obs=[dict(env="0", res="ok", hash=_H1, fname="a"), dict(env="1", res="ok", hash=_H2, fname="a")]), "hash_differs_across_processes"),
         (dict(kind="proc", res="ok", bad=[], hash=_H1, fname="a", obs=[dict(env="0", res="ok", hash=_H1, fname="a"), dict(env="random", res="ok", hash=_H1, fname="b")]), "fname_differs_across_processes"),
         (dict(kind="proc", res="ok", bad=[], hash=_H1, fname="a", obs=[dict(env="0", res="ok", hash=_H1, fname="a"), dict(env="1", res="raise:KeyError@build", hash="", fname="")]), "unexpected_exception"),
@@ -646,10 +739,17 @@ def main(chk: lib.Check) -> int:
     # families: the whole cross product (all pairs), plus one small family that contains equal configs twice
     recs.append(obs_fam(cr))
     recs.append(obs_fam([d for d, _ in ulist[: 60]] + [copy.deepcopy(d) for d, _ in ulist[: 60: 3]]))
+    # collections of configs
+    cfams = coll_families(bs, 24 if thorough else 4)
+    cspecs = [sp for fam in cfams for sp in fam]
+    coll_out = lib.pmap(obs_coll, cspecs, chunksize=4)
+    recs += coll_out
+    recs += lib.pmap(obs_cline, cfams, chunksize=1)
     # other interpreter processes
     pidx = list(range(len(ulist))) if thorough else list(range(0, len(ulist), max(1, len(ulist) // 400)))
-    pds = [ulist[i][0] for i in pidx]
-    pds_main = [unit_out[i][0] for i in pidx]  # the cfg records of this process
+    cidx = list(range(len(cspecs))) if thorough else list(range(0, len(cspecs), 3))
+    pds = [ulist[i][0] for i in pidx] + [cspecs[i] for i in cidx]
+    pds_main = [unit_out[i][0] for i in pidx] + [coll_out[i] for i in cidx]  # the cfg / coll records of this process
     children = run_children(pds)
     for ch in children:
         if ch["lib"] and ch["lib"] != where:
@@ -664,7 +764,9 @@ def main(chk: lib.Check) -> int:
     kinds = {}
     for x in recs:
         kinds[x["kind"]] = kinds.get(x["kind"], 0) + 1
-        if x["kind"] in ("cfg", "rt", "proc"):
+        if x["kind"] in ("coll", "cline") or "members" in x.get("d", {}):
+            chk.count([x["kind"], x.get("d", x.get("hashes"))], True)
+        elif x["kind"] in ("cfg", "rt", "proc"):
             chk.count([x["kind"], x.get("path", ""), x["d"]], nontrivial(x["d"]))
         elif x["kind"] == "line":
             chk.count(["line", x["field"], x["cfgs"]], True)
@@ -727,6 +829,13 @@ def reobserve(case):
         return obs_line((case["field"], [desc_untree(t) for t in case["cfgs"]]))
     if k == "fam":
         return obs_fam([desc_untree(t) for t in case["cfgs"]])
+    if k == "coll" or (k == "proc" and "members" in case["d"]):
+        sp = dict(name=case["d"]["name"], members=[desc_untree(t) for t in case["d"]["members"]])
+        if k == "coll":
+            return obs_coll(sp)
+        return (proc_records([sp], [obs_coll(sp)], run_children([sp])) or [obs_coll(sp)])[0]
+    if k == "cline":
+        return obs_cline([dict(name=c["name"], members=[desc_untree(t) for t in c["members"]]) for c in case["colls"]])
     if k == "proc":
         d = desc_untree(case["d"])
         return (proc_records([d], [obs_cfg(d)], run_children([d])) or [obs_cfg(d)])[0]
